@@ -38,9 +38,15 @@ func strategies() []strategy {
 	return []strategy{
 		{"unprepared-first", byPrepared(true)},
 		{"prepared-first", byPrepared(false)},
-		{"fifo", func(rcs []*kit.Emitted, _ *rand.Rand) { sort.SliceStable(rcs, func(a, b int) bool { return rcs[a].Seq < rcs[b].Seq }) }},
-		{"lifo", func(rcs []*kit.Emitted, _ *rand.Rand) { sort.SliceStable(rcs, func(a, b int) bool { return rcs[a].Seq > rcs[b].Seq }) }},
-		{"random", func(rcs []*kit.Emitted, rng *rand.Rand) { rng.Shuffle(len(rcs), func(a, b int) { rcs[a], rcs[b] = rcs[b], rcs[a] }) }},
+		{"fifo", func(rcs []*kit.Emitted, _ *rand.Rand) {
+			sort.SliceStable(rcs, func(a, b int) bool { return rcs[a].Seq < rcs[b].Seq })
+		}},
+		{"lifo", func(rcs []*kit.Emitted, _ *rand.Rand) {
+			sort.SliceStable(rcs, func(a, b int) bool { return rcs[a].Seq > rcs[b].Seq })
+		}},
+		{"random", func(rcs []*kit.Emitted, rng *rand.Rand) {
+			rng.Shuffle(len(rcs), func(a, b int) { rcs[a], rcs[b] = rcs[b], rcs[a] })
+		}},
 	}
 }
 
